@@ -325,3 +325,13 @@ Definition byz_frozen_m (s : St) (a : Z) : bool :=
    validator): ExecuteAllegationTracker writes the freeze record and leaves the request open *)
 Definition guilty_without_record (c : Cfg) (q : list (Z * Z)) (req : Z) (r : Req) : bool :=
   guilty_x c (count_choice YES (r_votes r)) req && negb (inb (r_mal r) q.*1).
+
+(* strict reading of "votes of distinct currently active validators": only the votes of validators
+   that are active (elected) at the tally count.  The code counts every stored vote.
+   trigger C19.stale_votes_counted: some voter of the request is not active at the tally *)
+Definition active_in (vs : gmap Z VStat) (a : Z) : bool :=
+  match vs !! a with Some v => v_active v | None => false end.
+Definition count_active_choice (vs : gmap Z VStat) (ch : Z) (votes : list (Z * Z)) : Z :=
+  Z.of_nat (length (filter (fun v => v.2 = ch /\ active_in vs v.1 = true) votes)).
+Definition stale_votes (vs : gmap Z VStat) (votes : list (Z * Z)) : bool :=
+  negb (forallb (fun v => active_in vs v.1) votes).
